@@ -54,8 +54,16 @@ struct FeatCb
     }
     void vector(int i, DenseVector& v) const
     {
-        for (size_t t = 0; t < s->pts[i].size(); t++)
-            v[t] = s->pts[i][t];
+        int x = s->sample(i); // element -> sample (rng=); not an element of the range: foreign
+        if (x < 0)
+        {
+            s->foreign++;
+            for (size_t t = 0; t < s->pts[0].size(); t++)
+                v[t] = 1e30;
+            return;
+        }
+        for (size_t t = 0; t < s->pts[x].size(); t++)
+            v[t] = s->pts[x][t];
     }
 };
 
@@ -91,9 +99,7 @@ int main()
         auto f = vh::fields(line);
         vk::Space sp = vk::parse_space(f);
         sp.kern = "lin";
-        std::vector<int> data(sp.N);
-        for (int i = 0; i < sp.N; i++)
-            data[i] = i;
+        std::vector<int> data = sp.range(); // identity, or the elements given by rng=
         int k = std::stoi(f["k"]);
         const Spec* spec = nullptr;
         for (auto& s : specs)
@@ -178,7 +184,7 @@ int main()
         std::cout << "obs=" << obs << " fin=" << (fin ? 1 : 0) << " gfin=" << (g_gfin ? 1 : 0) << " calls=" << g_calls
                   << " minnz=" << g_minnz << " evals=" << evals << " need1=" << need1 << " need0=" << need0 << " kcc=" << kcc
                   << " callback=" << (spec->kernel_search ? "kernel" : "distance") << " lists0=" << vk::show_lists(no_check)
-                  << std::endl;
+                  << sp.foreign_suffix() << std::endl;
     }
     return 0;
 }
